@@ -160,6 +160,7 @@ type sg struct {
 	multiParams   [2]string         // the names of the two parameters that together are isMulti
 	splitTail     bool              // the classification part of splitRing
 	sortedKeys    map[string]bool   // key slices on which sort.Ints has been called
+	dio, dioAlias bool              // dedupeInnersOuters (dedupe.go): maps, ordered maps, two results; type IsOuter = bool seen
 	cur           *sgSig
 	n             int
 	loopN         int
@@ -173,6 +174,11 @@ func (g *sg) fresh(p string) string {
 }
 
 func (g *sg) goType(x ast.Expr) (string, error) {
+	if g.dio {
+		if t, ok := g.dioType(x); ok {
+			return t, nil
+		}
+	}
 	switch types.ExprString(x) {
 	case "int":
 		return stInt, nil
@@ -232,6 +238,11 @@ func (g *sg) conv(v sgVal, ty string) (sgVal, error) {
 
 // expr translates an expression; the reads that can fail are appended to binds, in evaluation order.
 func (g *sg) expr(env *sgEnv, x ast.Expr, binds *[]string) (sgVal, error) {
+	if g.dio {
+		if v, handled, err := g.dioExpr(env, x, binds); handled {
+			return v, err
+		}
+	}
 	switch x := x.(type) {
 	case *ast.ParenExpr:
 		return g.expr(env, x.X, binds)
@@ -594,6 +605,11 @@ func (g *sg) call(env *sgEnv, x *ast.CallExpr, binds *[]string) (sgVal, error) {
 			return v, err
 		}
 	}
+	if g.dio {
+		if v, handled, err := g.dioCall(env, x, binds); handled {
+			return v, err
+		}
+	}
 	if g.cleanup {
 		if id, ok := x.Fun.(*ast.Ident); ok && id.Name == "splitRing" {
 			// splitRing(ring, isOuter, hitMultiple, ringIdx): the model's splitRing; (hitMultiple, ringIdx) only
@@ -780,7 +796,7 @@ func sgAssigned(stmts []ast.Stmt, acc map[string]bool) {
 						}
 						return true
 					}
-					if sel, ok := c.Fun.(*ast.SelectorExpr); ok && sel.Sel.Name == "Insert" { // X.Insert(k, v) changes X
+					if sel, ok := c.Fun.(*ast.SelectorExpr); ok && (sel.Sel.Name == "Insert" || sel.Sel.Name == "Set") { // X.Insert(k, v), X.Set(k, v) change X
 						target(sel.X)
 						return true
 					}
@@ -871,6 +887,11 @@ func (g *sg) stmts(env *sgEnv, list []ast.Stmt, k lcont, ctx *sgCtx) (string, er
 			return k
 		}
 		return lcont{gen: func() (string, error) { return g.stmts(e, rest, k, ctx) }}
+	}
+	if g.dio {
+		if out, handled, err := g.dioStmt(env, s, rest, k, ctx, after); handled {
+			return out, err
+		}
 	}
 	switch s := s.(type) {
 	case *ast.ReturnStmt:
@@ -1443,7 +1464,7 @@ func (g *sg) loop(env *sgEnv, s *ast.ForStmt, after lcont, ctx *sgCtx) (string, 
 
 func (g *sg) signature(fd *ast.FuncDecl) (*sgSig, error) {
 	sig := &sgSig{name: fd.Name.Name, mutated: -1}
-	if fd.Recv != nil || (fd.Type.TypeParams != nil && !(g.dedup && fd.Name.Name == "RemoveSequences")) {
+	if fd.Recv != nil || (fd.Type.TypeParams != nil && !(g.dedup && fd.Name.Name == "RemoveSequences") && !g.dioGeneric(fd.Name.Name)) {
 		return nil, fmt.Errorf("methods and generic functions are not supported")
 	}
 	for _, f := range fd.Type.Params.List {
@@ -1530,6 +1551,7 @@ func (g *sg) signature(fd *ast.FuncDecl) (*sgSig, error) {
 			return nil, fmt.Errorf("named results that are used are not supported")
 		}
 		sig.result, sig.retTy = stSets, stSets
+	case g.dioResults(fd, sig):
 	default:
 		return nil, fmt.Errorf("unsupported result list")
 	}
